@@ -343,6 +343,14 @@ def norm(node):
         return type(node).__name__
 
 
+def full(node):
+    """Normalised text without truncation (for sub-expression containment tests)."""
+    try:
+        return " ".join(ast.unparse(node).split())
+    except Exception:
+        return type(node).__name__
+
+
 def dotted(node):
     """a.b.c -> 'a.b.c' ; otherwise None"""
     parts = []
